@@ -111,6 +111,20 @@ def structure_case(task):
             if abs(v - e) > 1e-12 * max(1.0, abs(e)):
                 msgs.append(f"{tag}: outside all balls at {x.tolist()} value {v!r}, paraboloid {e!r}")
                 break
+    # a point of the box is the same point whether its (integer) coordinates arrive as floats or as integers
+    for x in gkls.lattice_points(n, (-1.0, 0.0, 1.0)):
+        xi = np.array([int(v) for v in x], dtype=np.int64)
+        try:
+            from iOpt.trial import Point, FunctionValue
+            vi = float(S.p.Calculate(Point(xi, []), FunctionValue()).value)
+        except Exception as e:
+            msgs.append(f"{tag}: Calculate at the integer-typed point {xi.tolist()} raised {type(e).__name__}: {e}")
+            break
+        vf = gkls.value(S.p, np.array(x, dtype=float))
+        ev += 2
+        if vi != vf:
+            msgs.append(f"{tag}: value at {xi.tolist()} is {vi!r} for an integer-typed point and {vf!r} for the same point as floats")
+            break
     # continuity across every ball boundary (value on both sides, several scales); evaluated on the widened twin so
     # that boundary points outside the box are covered too, and on the original where inside
     w = S.wide()
